@@ -6,7 +6,7 @@ handles a reference well-formed input correctly.
 """
 import struct
 
-from vf.e1 import harness, registered, untraced, concrete as C, Cond
+from vf.e1 import Stalled, cpu_deadline, harness, registered, untraced, concrete as C, Cond
 from vf import flags as _flags
 from vf import detloop
 from vf.props.l2capstub import Wire, HConn
@@ -32,14 +32,20 @@ def _B(*xs):
 
 
 def _safe(fn, *a):
-    """True if the call returns or raises an ordinary exception"""
+    """True if the call returns or raises an ordinary exception - within its CPU budget (no busy loop)"""
     try:
-        fn(*a)
+        with cpu_deadline(_BUDGET):
+            fn(*a)
+    except Stalled:
+        return False
     except RecursionError:
         return False
     except Exception:
         return True
     return True
+
+
+_BUDGET = 20.0      # CPU seconds for one call into the stack with a handful of input bytes (normally milliseconds, tens of ms traced)
 
 
 # ------------------------------------------------------------------------------------------
@@ -100,7 +106,10 @@ def host_hostile_event(x0: int, x1: int, x2: int, x3: int, x4: int, i: int, n: i
             h.send_l2cap_pdu(1, 4, b'a')
             h.send_l2cap_pdu(1, 4, b'b')
         try:
-            h.on_packet(_B(4, code, n) + _B(x0, x1, x2, x3, x4)[:n])
+            with cpu_deadline(_BUDGET):
+                h.on_packet(_B(4, code, n) + _B(x0, x1, x2, x3, x4)[:n])
+        except Stalled:
+            return False
         except RecursionError:
             return False
         except Exception:
@@ -161,7 +170,10 @@ def signalling_garbage_then_echo(x0: int, x1: int, x2: int, x3: int, x4: int, i:
             conn = w.conns[1][1]
         body = _B(x0, x1, x2, x3, x4)[:n]
         try:
-            w.mgr[1].on_pdu(conn, cid, _B(code, 7, n, 0) + body)
+            with cpu_deadline(_BUDGET):
+                w.mgr[1].on_pdu(conn, cid, _B(code, 7, n, 0) + body)
+        except Stalled:
+            return False
         except RecursionError:
             return False
         except Exception:
@@ -210,7 +222,10 @@ def coc_hostile_sdu_then_good(l0: int, n0: int, n1: int, frames: int, good: int)
                 if not f:
                     continue
                 try:
-                    ch.on_pdu(f)
+                    with cpu_deadline(_BUDGET):
+                        ch.on_pdu(f)
+                except Stalled:
+                    return False
                 except Exception:
                     pass
             # if the hostile frames left a legitimately incomplete SDU (announced more than received), the peer's next
@@ -241,7 +256,10 @@ def att_garbage_then_read(x0: int, x1: int, x2: int, x3: int, x4: int, i: int, n
             dev, server = make_server([ch])
             b = StubBearer(23)
         try:
-            server.on_gatt_pdu(b, att.ATT_PDU.from_bytes(_B(code, x0, x1, x2, x3, x4)[:1 + n]))
+            with cpu_deadline(_BUDGET):
+                server.on_gatt_pdu(b, att.ATT_PDU.from_bytes(_B(code, x0, x1, x2, x3, x4)[:1 + n]))
+        except Stalled:
+            return False
             loop.run_ready()
         except RecursionError:
             return False
@@ -279,7 +297,10 @@ def sdp_garbage_then_search(x0: int, x1: int, x2: int, x3: int, x4: int, pdu: in
         ch = _SdpChan()
         server.on_connection(ch)
     try:
-        server.on_pdu(_B(pdu, 0, 1, 0, n) + _B(x0, x1, x2, x3, x4)[:n])
+        with cpu_deadline(_BUDGET):
+            server.on_pdu(_B(pdu, 0, 1, 0, n) + _B(x0, x1, x2, x3, x4)[:n])
+    except Stalled:
+        return False
     except RecursionError:
         return False
     except Exception:
@@ -347,7 +368,10 @@ def rfcomm_garbage_then_sabm(x0: int, x1: int, x2: int, x3: int, x4: int, n: int
         ch = _L2()
         mux = rfcomm.Multiplexer(ch, rfcomm.Multiplexer.Role.RESPONDER)
     try:
-        mux.on_pdu(_B(x0, x1, x2, x3, x4)[:n])
+        with cpu_deadline(_BUDGET):
+            mux.on_pdu(_B(x0, x1, x2, x3, x4)[:n])
+    except Stalled:
+        return False
     except RecursionError:
         return False
     except Exception:
@@ -380,7 +404,10 @@ def hf_garbage_then_ok(x0: int, x1: int, x2: int, n: int) -> bool:
         t = loop.create_task(hf.execute_command('AT+CMEE=1'))
         loop.run_ready()
         try:
-            hf._read_at(b'\r\n' + _B(x0, x1, x2)[:n] + b'\r\n')
+            with cpu_deadline(_BUDGET):
+                hf._read_at(b'\r\n' + _B(x0, x1, x2)[:n] + b'\r\n')
+        except Stalled:
+            return False
         except RecursionError:
             return False
         except Exception:
@@ -394,6 +421,32 @@ def hf_garbage_then_ok(x0: int, x1: int, x2: int, n: int) -> bool:
             return False
         loop.run_ready()
         return t.done() and t.exception() is None
+
+
+@harness(pre=['0 <= x0 <= 127 and 0 <= x1 <= 127 and 0 <= x2 <= 127'], family='hfp', kernels=K + ('bumble.hfp.AgProtocol._read_at',), timeout=(90, 300),
+         grids=[(('quick',), {'n': [1, 2]}), (('thorough',), {'n': [1, 2, 3]})],
+         bounds='AgProtocol reader: 1..3 arbitrary 7-bit bytes (symbolic; blank and whitespace-only lines included) followed by CR, then AT+CMEE=1: the reader returns within its CPU budget (no busy loop) and answers the well-formed command with exactly one OK')
+def ag_garbage_then_command(x0: int, x1: int, x2: int, n: int) -> bool:
+    from vf.props import c20
+    with detloop.running() as loop:
+        ag, dlc = c20._ag()
+        try:
+            with cpu_deadline(_BUDGET):
+                ag._read_at(bytes([x0, x1, x2][:n]) + b'\r')
+        except Stalled:
+            return False
+        except Exception:
+            pass
+        n0 = len(dlc.out)
+        try:
+            with cpu_deadline(_BUDGET):
+                ag._read_at(b'AT+CMEE=1\r')
+        except Stalled:
+            return False
+        except Exception:
+            return False
+        loop.run_ready()
+        return len([o for o in dlc.out[n0:] if c20._FINAL.match(o)]) == 1 and dlc.out[-1] == '\r\nOK\r\n'
 
 
 def conditions():
